@@ -3,7 +3,7 @@
 //! ops (one per route; `V` = candidate values with their *own* types, absent = no candidate):
 //!   `route U P <plan> [T:…] V:i:<type>:<compact bits>…`            witnesses at construction + `finalize_unpruned`
 //!   `route F P <plan> [T:…] N:i:<name>… M:<name>:<type>:<bits>…`   text → `Forest::parse` → `to_witness_node(&map)` + `finalize_unpruned`
-//!   `route P P <plan> [T:…] V:… X:i:L|R… [E:fail]`                 the same construction + `finalize_pruned(env)`; `X`: case nodes of
+//!   `route P P <plan> [T:…] V:… X:i:L|R… J:… [E:fail]`             the same construction + `finalize_pruned(env)`; `J`: the jet calls of the run (the model runs the program itself); `X`: case nodes of
 //!                                                                  which the run used one branch only (from a `SetTracker`), `E:fail`: the run failed
 //!   `route D <plan in wire order> [T:…] B:<witness stream bits>`    `RedeemNode::decode(program bytes, stream)`
 //!   → `ok W:i:<target type>:<compact bits>…` (every witness node of the returned program, by plan index) | `err` | `err-exec`
@@ -735,6 +735,20 @@ fn cand_tokens(cands: &BTreeMap<usize, Cand>) -> String {
     s
 }
 
+/// `J:name:in:out|fail` for every distinct recorded jet call
+fn jet_call_tokens(calls: &[(Elements, Vec<bool>, Option<Vec<bool>>)]) -> String {
+    let mut s = String::new();
+    let mut seen = std::collections::HashSet::new();
+    for (j, i, o) in calls {
+        let key = format!("J:{}:{}:{}", j, gen::bits_text(i), o.as_ref().map(|o| gen::bits_text(o)).unwrap_or_else(|| "fail".into()));
+        if seen.insert(key.clone()) {
+            s.push(' ');
+            s.push_str(&key);
+        }
+    }
+    s
+}
+
 /// true when the case was evaluated
 pub fn one(ctx: &mut Ctx, c: &Case) -> bool {
     let plan = &c.plan;
@@ -842,6 +856,15 @@ pub fn one(ctx: &mut Ctx, c: &Case) -> bool {
         }
         Ok(r) => Some(r),
     };
+    // the jet calls of the run of the unpruned program: the model of `finalize_pruned` runs the
+    // program itself and needs the environment's answers
+    let jtoks = match &res_u {
+        Ok(red) => match catch(|| progs::run(red, None, &env)) {
+            Ok(Ok(run)) => jet_call_tokens(&run.rec.calls),
+            _ => String::new(),
+        },
+        Err(_) => String::new(),
+    };
     if let Some(res_p) = &res_p {
         match (&res_u, res_p) {
             (Err(_), Ok(_)) => ctx.fail("route-disagree", &line_u, "finalize_unpruned reports an error, finalize_pruned returns a program"),
@@ -850,7 +873,7 @@ pub fn one(ctx: &mut Ctx, c: &Case) -> bool {
                 ctx.count(&format!("reach:P:{kind}:err"));
             }
             (Ok(_), Err(e)) if e.starts_with("exec:") => {
-                ctx.op(&format!("route P P {}{}{} E:fail", plan.text(), tables, vtoks), "err-exec");
+                ctx.op(&format!("route P P {}{}{}{} E:fail", plan.text(), tables, vtoks, jtoks), "err-exec");
                 ctx.count("reach:P:execution-failed");
                 ctx.count(&format!("cross:P:{kind}:err-exec"));
             }
@@ -871,7 +894,7 @@ pub fn one(ctx: &mut Ctx, c: &Case) -> bool {
                         }
                     }
                 }
-                let line_p = format!("route P P {}{}{}{}", plan.text(), tables, vtoks, xt);
+                let line_p = format!("route P P {}{}{}{}{}", plan.text(), tables, vtoks, xt, jtoks);
                 match &by_tracker {
                     Ok(Ok(q)) => {
                         if q.ihr() != pruned.ihr() || same_witnesses(q, pruned).is_err() {
